@@ -5,25 +5,31 @@ package ktime
 // Contracts for fvc (see /verif/DESIGN.md). Comment-only file.
 
 //@ func UnwrapMetaV1Time
+//@   params ts
 //@   ensures [C07,C12] result == (ts != nil ? ts.Time : zero(time.Time))
 
 //@ func IsTimeSetAndLaterThan
+//@   params ts, other
 //@   ensures [C07] result == (ts != nil && !ts.Time.IsZero() && ts.Time.After(other))
 
 //@ func IsTimeSetAndLater
+//@   params ts
 //@   modifies clock
 //@   ensures [C07] result == (ts != nil && !ts.Time.IsZero() && ns(ts.Time) > clock)
 //@   ensures [C07] clock >= old(clock)
 
 //@ func IsTimeSetAndEarlierThanOrEqualTo
+//@   params ts, other
 //@   ensures [C12] result == (ts != nil && !ts.Time.IsZero() && !ts.Time.After(other))
 
 //@ func IsTimeSetAndEarlierOrEqual
+//@   params ts
 //@   modifies clock
 //@   ensures [C12] result == (ts != nil && !ts.Time.IsZero() && ns(ts.Time) <= clock)
 //@   ensures [C12] clock >= old(clock)
 
 //@ func TimeMax
+//@   params ts1, ts2
 //@   ensures [C04,C15] ts1 == nil ==> result == ts2
 //@   ensures [C04,C15] ts2 == nil ==> result == ts1
 //@   ensures [C04,C15] ts1 != nil && ts2 != nil ==> result == (ts1.Time.Before(ts2.Time) ? ts2 : ts1)
